@@ -104,6 +104,8 @@ def renderObs (names : List String) (obs : List String) : String :=
   if names.isEmpty then "-" else joinWith ";" ((names.zip obs).map (fun p => p.1 ++ "@" ++ p.2))
 
 def hist (opToks impl : List String) : String :=
+  -- an update operation that panics is a violation outright (the model has no such outcome)
+  if (impl.head?.getD "").splitOn "," |>.contains "panic" then "D V operation-panicked" else
   match opToks.mapM parseOp, impl with
   | some ops, [res, lr, br, lc, bc] =>
     match parseResults res, parseObs lr, parseObs br, parseObs lc, parseObs bc with
